@@ -119,6 +119,39 @@ def documented_dft_size(Lv, pad):
     return D
 
 
+LAYOUTS = ["contiguous", "contiguous", "every second sample of a longer array", "one channel of an interleaved stereo array",
+           "slice at an offset of a longer array", "reversed view", "read-only"]
+
+
+def laid_out(x, layout):
+    """x's values in the given memory layout: (array to hand over, backing array, pristine copy of the backing array)."""
+    n = len(x)
+    if layout == "every second sample of a longer array":
+        back = np.full(2 * n + 1, 7.0, dtype=x.dtype)
+        back[1 : 2 * n : 2] = x
+        v = back[1 : 2 * n : 2]
+    elif layout == "one channel of an interleaved stereo array":
+        back = np.full((n, 2), 7.0, dtype=x.dtype)
+        back[:, 1] = x
+        v = back[:, 1]
+    elif layout == "slice at an offset of a longer array":
+        back = np.full(n + 11, 7.0, dtype=x.dtype)
+        back[5 : 5 + n] = x
+        v = back[5 : 5 + n]
+    elif layout == "reversed view":
+        back = x[::-1].copy()
+        v = back[::-1]
+    elif layout == "read-only":
+        back = x.copy()
+        v = back
+        v.setflags(write=False)
+    else:
+        back = x.copy()
+        v = back
+    assert v.shape == (n,) and np.array_equal(v, x)
+    return v, back, back.copy()
+
+
 def oracle_features(c, x, config, D, window=None):
     Lv, Sv = c.frame_length, c.frame_shift
     N = len(x)
@@ -205,16 +238,30 @@ def end_to_end(ctx):
         if not (0 < Sv <= Lv):
             continue
         D = documented_dft_size(Lv, kw["pad_to_nearest_power_of_two"])
-        for N in [Lv // 2, Lv // 2 + 1, Lv, rng.randint(Lv // 2 + 1, 3 * Lv + 7)]:
+        for N in [Lv // 2, Lv // 2 + 1, Lv, rng.randint(Lv // 2 + 1, 3 * Lv + 7)] + ([3 * Sv + Lv] if 2 * Lv < 3 * Sv else []):
             # loud noise, quiet and very quiet noise (mean square below LOG_FLOOR_VALUE), digital silence,
             # a loud burst followed by silence (frames on both sides of the floor)
             level = rng.choice(["loud", "loud", "quiet", "faint", "silence", "burst"])
             x = nprng.randn(N) * {"loud": 1.0, "quiet": 1e-3, "faint": 1e-6, "silence": 0.0, "burst": 1.0}[level]
             if level == "burst":
                 x[N // 3:] *= 1e-4
-            got = c.compute_full(x)
+            # the signal is whatever 1-D array the caller has: a view into a longer or multi-channel recording, a
+            # reversed view or a read-only array hold the same samples (N = 3S + L with light overlap needs no padding at
+            # all in the causal style, so the frames come straight out of the caller's memory)
+            layout = rng.choice(LAYOUTS)
+            xin, back, back0 = laid_out(x, layout)
+            try:
+                got = c.compute_full(xin)
+            except Exception as e:  # noqa: BLE001
+                bad.append(dict(what="compute_full raises %s: %s" % (type(e).__name__, str(e)[:200]), bank=name, N=N, layout=layout,
+                                **{k: str(v) for k, v in kw.items()}))
+                continue
+            if not np.array_equal(back, back0):
+                bad.append(dict(what="compute_full modified the caller's signal", bank=name, N=N, layout=layout, **{k: str(v) for k, v in kw.items()}))
+                continue
+            ctx.count("e2e:layout=" + layout)
             ref = oracle_features(c, x, config, D, window=doc_window)
-            desc = dict(bank=name, rate=rate, low_hz=lo, frame_length=Lv, frame_shift=Sv, dft_size=D, N=N, level=level,
+            desc = dict(bank=name, rate=rate, low_hz=lo, frame_length=Lv, frame_shift=Sv, dft_size=D, N=N, level=level, layout=layout,
                         **{k: str(v) for k, v in kw.items()})
             ctx.case(desc, nontrivial=got.shape[0] > 0)
             ctx.count("e2e:" + name)
